@@ -13,6 +13,10 @@ Recognised shapes of AnfTransformer.visit_<Node> (anything else raises Untransla
   return node                                                                      -> VDisplay
   visit_If / visit_For / visit_With / visit_While                                  -> VCustom
       (their bodies are the hand model; tied by the correspondence, not by this table)
+  _is_trivial(node):  trivial_node_types = (<classes / bool / str>, ...)
+                      if isinstance(node, trivial_node_types) and not _is_py2_name_constant(node): return True
+                      if isinstance(node, ast.Constant) and node.value == Ellipsis: return True
+                      return False                                                  -> trivial_types_gen
 Also translated: the default configuration built in __init__ when config is None, the classes
 _ensure_node_in_anf treats as transparent wrappers, and DummyGensym.new_name (stem, base).
 """
@@ -186,6 +190,27 @@ def translate(repo):
     if base > 5000:
         _fail(nn[0], 'gensym base too large for a nat literal')
 
+    # _is_trivial
+    tf = [n for n in tree.body if isinstance(n, ast.FunctionDef) and n.name == '_is_trivial']
+    if len(tf) != 1:
+        raise Untranslatable('untranslatable: anf.py: _is_trivial not found')
+    tb = _strip(tf[0].body)
+    if not (len(tb) == 4 and isinstance(tb[0], ast.Assign) and ast.unparse(tb[0].targets[0]) == 'trivial_node_types'
+            and isinstance(tb[0].value, ast.Tuple)
+            and isinstance(tb[1], ast.If) and ast.unparse(tb[1].test) ==
+            'isinstance(node, trivial_node_types) and (not _is_py2_name_constant(node))'
+            and [ast.unparse(x) for x in tb[1].body] == ['return True'] and not tb[1].orelse
+            and isinstance(tb[2], ast.If) and ast.unparse(tb[2].test) == 'isinstance(node, ast.Constant) and node.value == Ellipsis'
+            and [ast.unparse(x) for x in tb[2].body] == ['return True'] and not tb[2].orelse
+            and ast.unparse(tb[3]) == 'return False'):
+        _fail(tf[0], 'shape of _is_trivial')
+    trivial = []
+    for el in tb[0].value.elts:
+        if isinstance(el, ast.Name) and el.id in ('bool', 'str'):
+            trivial.append(el.id)
+        else:
+            trivial += _cls_names(el)
+
     def q(s):
         return '"' + s + '"'
 
@@ -205,6 +230,7 @@ def translate(repo):
            ';\n'.join('  (%s, %s, %s, %s)' % (opt_classes(p[0]), opt_classes(p[1]), opt_classes(p[2]), 'true' if r else 'false')
                       for p, r in rules), '].', '',
            'Definition wrappers_gen : list string := [%s].' % '; '.join(q(w) for w in wrappers), '',
+           'Definition trivial_types_gen : list string := [%s].' % '; '.join(q(t) for t in trivial), '',
            'Definition gensym_stem_gen : string := %s.' % q(stem + sep),
            'Definition gensym_base_gen : nat := %d.' % base, '']
     return '\n'.join(out)
